@@ -110,11 +110,23 @@ pub fn structural_checks(world: &WorldRef, prefix_ok: &mut HashMap<u32, (u64, u6
             if let Some((pinc, pm)) = prev {
                 if pinc == *inc && matched < pm {
                     // tolerated only if the node compacted (first moved past) — then matched >= first-1 >= pm
-                    w.oracle.lock().unwrap().violate(
+                    // cause attribution (known finding KF15): a "start from scratch" AppendEntries
+                    // (prev 0,0) sent to this node at most 2 virtual seconds ago makes the follower
+                    // reset() its log and keep only that request's (capped) entries: the log then
+                    // starts at 1 and ends below what it held
+                    let mut o = w.oracle.lock().unwrap();
+                    let now = crate::oracle::vnow();
+                    let since = o.prev_zero_sent.get(id).map(|t| now.saturating_sub(*t));
+                    let by_reset = first == 1 && since.is_some_and(|d| d <= 2000);
+                    if by_reset {
+                        o.probe("log_reset_by_prev_zero_request_dropped_committed");
+                    }
+                    o.violate(
                         "C05",
                         "committed_entries_discarded",
                         json!({"node": id, "held_before": pm, "holds_now": matched, "log_first": first,
-                               "log_last": entries[entries.len()-1].index}),
+                               "log_last": entries[entries.len()-1].index,
+                               "reset_by_prev_zero_request": by_reset, "prev_zero_request_sent_ms_ago": since}),
                     );
                 }
             }
